@@ -4,6 +4,7 @@
 
 from __future__ import annotations  # required for docs to alias type annotations
 
+import operator
 import sys
 from math import log, pi, prod
 from types import FunctionType
@@ -628,6 +629,8 @@ def _gen_torch_function_map() -> Dict[FunctionType, FunctionType]:
         if isinstance(unit_fn, FunctionType) and unit_fn_name in torch_objects:
             torch_fn = cast(FunctionType, torch_objects[unit_fn_name])
             function_map[torch_fn] = unit_fn
+    # `a @ b` reaches a traced graph as the builtin `operator.matmul`
+    function_map[cast(FunctionType, operator.matmul)] = matmul
     return function_map
 
 
